@@ -46,7 +46,7 @@ def meta(binary):
         w = line.split()
         if not w:
             continue
-        if w[0] in ('cap', 'large', 'eff', 'sizeof'):
+        if w[0] in ('cap', 'large', 'eff', 'maxsize', 'sizeof'):
             m[w[0]] = int(w[1])
         elif w[0] == 'types':
             seen = set()
